@@ -8,12 +8,36 @@ V = os.path.dirname(os.path.dirname(os.path.abspath(__file__)))
 TECH = "deterministic simulation with fault injection: whole workflow program run on a seeded cooperative scheduler / simulated fs+shell+clock; "
 
 CLAIMED = {
+ "C01": dict(level="fault_enumeration", tech=TECH + "for each sampled schedule every distinct crash state (fs after each journalled mutation) is enumerated and checked; command failures (exit before/partial/after, signal, omitted output) injected from the tape",
+     text="Per sampled (workflow, schedule, optional command failure) the list of distinct durable states a kill can leave is enumerated completely and each is checked: a file at a declared final path implies an earlier exit(0) of its task and complete bytes; all other new files are audit/log/extra files or below _scipipe_tmp*. Exhaustive along each schedule, sampled across schedules and workflows.",
+     note="Crash model: process group killed between two file-system calls (completed calls persist). Trusted: simulator fs/shell, reference model. Parent-relative/absolute outputs only with existing destination directory.", ref="9 C01"),
+ "C02": dict(level="exploration", tech=TECH + "seeded search over workflows x subsets of pre-existing output files (arbitrary bytes) x schedules, plus the history run/run-again; oracle on execution trace, (inode, mtime, bytes) and reference evaluated with the pre-existing bytes",
+     text="Each sampled case places a tape-chosen subset of outputs on disk (or re-runs a completed workflow) and checks: no command of a task with a pre-existing output starts, pre-existing files keep inode/mtime/bytes, downstream results equal the reference computed from the pre-existing bytes.",
+     note="Subsets that split a multi-output task are checked for the two safety clauses only (the property promises nothing about consumers of the absent sibling).", ref="9 C02"),
+ "C03": dict(level="fault_enumeration", tech=TECH + "every distinct crash state of each sampled schedule is a kill point; history kill / cleanup / re-run executed for each, plus tape-chosen re-run without cleanup and nested crash during recovery",
+     text="For each sampled (workflow, schedule) every distinct crash state is recovered from (cleanup + re-run) and compared with the uninterrupted reference result; inode/mtime of already-final files and the re-run's execution trace are checked. One known finding (F-C03-1) is matched by a structural signature and reported as KNOWN-FINDING.",
+     note="Crash model as C01. Cleanup = removing entries named _scipipe_tmp* and FIFOs, as the statement says.", ref="9 C03"),
  "C04": dict(level="exploration", tech=TECH + "seeded search over workflows x schedules x map orders x durations; oracle = independent reference evaluation (task multiset, file contents, per-edge delivery)",
      text="Every sampled (workflow, configuration, schedule) is executed completely on the simulator and compared with an independent reference evaluation: multiset of executed tasks, bytes of every output, per-edge delivery counts. Sampling, not proof.",
      note="Trusted: the simulator's channel/select/mutex semantics (re-implemented to the Go spec), the in-memory fs, the mini shell, the reference model. Fan-in only into single-port processes; zipped ports have equal lengths; bufsize>=1.", ref="9 C04"),
  "C05": dict(level="exploration", tech=TECH + "deadlock = no runnable goroutine and no timer (exact, no time-outs); early return checked on the snapshot taken by the workflow program right after Run returns",
      text="Liveness is decided exactly per sampled schedule (the scheduler knows the runnable set), safety on the fs/command state at the return instant. Sampling over graphs, buffer/slot settings and schedules.",
      note="Trusted: simulator and reference as for C04. Workflows with streaming outputs are excluded (C17).", ref="9 C05"),
+ "C06": dict(level="exploration", tech=TECH + "step invariant: sum of cores over commands between start and exit <= maxConcurrentTasks, evaluated after every simulator step",
+     text="The simulator sees every command start and exit, so slot usage is exact at every step of every sampled schedule (not a lower bound from wall-clock intervals).",
+     note="Sampled workflows/schedules; mixed CoresPerTask 1..max; skipped tasks interleaved.", ref="9 C06"),
+ "C07": dict(level="exploration", tech=TECH + "barrier commands (complete only if k commands are inside simultaneously) + simulator deadlock detection; token-by-token acquisition interleaved by the scheduler; oversize-cores rejection",
+     text="Work conservation is decided by rendezvous commands under exact deadlock detection, contention by scheduling every individual token deposit / mutex operation, rejection of oversize processes by exit status and trace.",
+     note="Sampled configurations and schedules.", ref="9 C07"),
+ "C08": dict(level="exploration", tech=TECH + "recorder components on out-port edges; command durations over 6 orders of magnitude so completion order differs from arrival order",
+     text="Recorded per-edge sequences are compared with the reference order (or per-upstream projection for fan-in) under sampled schedules in which later tasks finish first.",
+     note="Recorders are ordinary components built with the public API; they add a process per edge.", ref="9 C08"),
+ "C09": dict(level="exploration", tech=TECH + "one injected failure per run (cmd-exit x3, cmd-signal, cmd-omit, bad-input x2) on a tape-chosen task while siblings run",
+     text="Exit status, absence of the completion marker, absence of the victim's outputs at final paths and absence of start events of transitive dependants are checked for each sampled (workflow, victim, failure kind, schedule).",
+     note="Failure kinds are those the statement lists.", ref="9 C09"),
+ "C16": dict(level="exploration", tech=TECH + "generated graphs with one port left unconnected; RunTo/RunToRegex/RunToProcs with tape-chosen targets; oracle = reference closure vs execution trace",
+     text="Refusal (exit!=0, empty trace) for unconnected ports and exact closure execution for RunTo are checked on sampled graphs and schedules.",
+     note="One genuine defect (F-C16-1, fatal recursion with FromStr feeders) was repaired.", ref="9 C16"),
 }
 
 NOT_APPLICABLE = {
